@@ -197,23 +197,19 @@ def join_with_limit(  # noqa: PLR0911
 
 def error_context(text: str, index: int) -> tuple[str, int, int]:
     """Return a (line, lineno, col) tuple for position `index` in `text`."""
-    if not text:
-        return ("", 1, 0)
-
     lines = text.splitlines(keepends=True)
-    cumulative_length = 0
-    target_line_index = len(lines) - 1
+    line_start = 0
 
     for i, line in enumerate(lines):
-        cumulative_length += len(line)
-        if index < cumulative_length:
-            target_line_index = i
-            break
+        if index < line_start + len(line):
+            return (line.rstrip(), i + 1, index - line_start + 1)
+        line_start += len(line)
 
-    # Line number (1-based)
-    line_number = target_line_index + 1
-    # Column number within the line
-    column_number = index - (cumulative_length - len(lines[target_line_index])) + 1
-    current_line = lines[target_line_index].rstrip()
+    # `index` is at the end of `text`.
+    if lines and lines[-1].splitlines()[0] == lines[-1]:
+        # The last line is not terminated by a line break.
+        line_start -= len(lines[-1])
+        return (lines[-1].rstrip(), len(lines), index - line_start + 1)
 
-    return (current_line, line_number, column_number)
+    # An empty line after the last line break, or empty text.
+    return ("", len(lines) + 1, index - line_start + 1)
